@@ -127,6 +127,16 @@ class C07World(RecvWorld):
             return ("C07:error-with-return-value", f"{tag}: return_value={r.return_value!r}")
         return None
 
+    def after_step(self) -> None:
+        super().after_step()
+        # a failing backend must not prevent the message from completing: an ackable message whose
+        # callback has ended has been acknowledged
+        for i in self.cb_done:
+            m = self.msgs[i]
+            if m["ack"] is not None and m["kind"] == "valid" and not any(e[0] == "ACK_E" for e in self.per[i]) and i not in getattr(self, "_ack_flagged", set()):
+                self.__dict__.setdefault("_ack_flagged", set()).add(i)
+                self.flag("C07:processing-ended-without-ack", f"message {i} (save_fails={m['save_fails']}) finished processing but was never acknowledged: {self.per[i]}")
+
     def check_quiescent(self) -> None:
         super().check_quiescent()
         # progress after failures: when only timers (or nothing) are enabled, every delivered
@@ -183,7 +193,7 @@ def scenarios(tier: str) -> List[Dict[str, Any]]:
         for fails in itertools.product((False, True), repeat=n):
             if not any(fails):
                 continue
-            msgs = [dict(base[j], save_fails=f, gates=["save"] if k == 0 else []) for k, (j, f) in enumerate(zip(seq, fails))]
+            msgs = [dict(base[j], save_fails=f, gates=["save"] if k == 0 else [], ack="sync" if k % 2 == 0 else "async") for k, (j, f) in enumerate(zip(seq, fails))]
             for a in ((1, 2) if n == 2 else (1,)):
                 out.append(_sc(msgs, 0, a=a))
     if tier == "thorough":
